@@ -57,7 +57,7 @@ fn bounds_for(prop: &str, tier: &str, th: &Theory) -> Bounds {
         max_defines: m("max_defines", if thorough { 2 } else { 1 }) as usize,
         max_closes: if thorough { 3 } else { 2 },
         state_cap: envu("VERIF_STATE_CAP", if thorough { 400_000 } else { 150_000 }) as usize,
-        trans_cap: envu("VERIF_TRANS_CAP", if thorough { m("trans_cap_thorough", 600_000) } else { m("trans_cap_quick", 50_000) }) as usize,
+        trans_cap: envu("VERIF_TRANS_CAP", if thorough { m("trans_cap_thorough", 600_000) } else { m("trans_cap_quick", 30_000) }) as usize,
         wall_cap_s: envu("VERIF_THEORY_WALL", if thorough { 1800 } else { 120 }),
         close_until: prop == "C07",
     };
